@@ -50,6 +50,16 @@ def run(ck, tier, seed):
             if ids and rep % 2 == 1:
                 args.append(name_path)
             h = vlib.run_harness(exe, args, timeout=3000)
+            if font == "Padauk.ttf" and rep == 0 and not h.fault:
+                # a font with one unloadable glyph must be refused by gr_face_preloadAll (then there is nothing to share);
+                # if it is accepted, the threads run on it like on any other shared face
+                empty = os.path.join(tmp, "empty.hex")
+                open(empty, "w").write("")
+                hb = vlib.run_harness(exe, args[:6] + [trace + ".staged", seed + 77, empty, "badglyph"], timeout=3000)
+                vlib.absorb(ck, hb)
+                if hb.fault:
+                    return
+                ck.extra.setdefault("impl", {})["Padauk.ttf#unloadable-glyph"] = hb.summary["extra"] if hb.summary else None
             vlib.absorb(ck, h)
             if h.fault:
                 if "data race" in h.fault.get("report", "") or h.fault.get("kind") == "sanitizer":
